@@ -83,7 +83,7 @@ func mNewStore(tag string, r *vRng, def uint) *mStore {
 	}
 	ms := &mStore{root: root, base: filepath.Join(root, "base"), cfgfile: filepath.Join(root, "store.yaml"), def: def, kdfTab: map[string]string{}}
 	os.Mkdir(ms.base, 0700)
-	ms.params = []mParam{{ID: 1, Time: 1, Memory: 8, Threads: 1, Length: 32}, {ID: 2, Scrypt: true, Key: r.bytes(32), Cost: 1}, {ID: 3, Time: 1, Memory: 8, Threads: 1, Length: 16}}
+	ms.params = []mParam{{ID: 1, Time: 1, Memory: 8, Threads: 1, Length: 32}, {ID: 2, Scrypt: true, Key: r.bytes(32), Cost: 1}, {ID: 3, Time: 1, Memory: 13, Threads: 1, Length: 16}}
 	ms.writeCfg()
 	return ms
 }
